@@ -63,7 +63,8 @@ def classify(prop, md, finding, known):
 
 
 def write_evidence(prop, tier, seed, total, n_viol, known_hits, level="exploration", extra=None):
-    os.makedirs(os.path.join(VERIF, "evidence"), exist_ok=True)
+    evdir = os.environ.get("QCOSIM_EVIDENCE_DIR") or os.path.join(VERIF, "evidence")
+    os.makedirs(evdir, exist_ok=True)
     wall = total.get("wall", 0.0)
     runs = total["runs"]
     cov = {
@@ -107,7 +108,7 @@ def write_evidence(prop, tier, seed, total, n_viol, known_hits, level="explorati
         cov.update(extra)
     ev = {"property_id": prop, "tier": tier, "seed": int(seed), "level": level, "coverage": cov,
           "assumptions": ASSUMPTIONS, "wall_s": round(wall, 2), "violations": n_viol}
-    with open(os.path.join(VERIF, "evidence", f"{prop}.json"), "w") as f:
+    with open(os.path.join(evdir, f"{prop}.json"), "w") as f:
         json.dump(ev, f, indent=1, sort_keys=True, default=str)
 
 
@@ -160,7 +161,8 @@ def main(argv=None):
     seen_oracles = {}
     for v in total["violations"]:
         seen_oracles.setdefault(v["finding"]["oracle"], []).append(v)
-    os.makedirs(os.path.join(VERIF, "replays"), exist_ok=True)
+    repdir = os.environ.get("QCOSIM_REPLAY_DIR") or os.path.join(VERIF, "replays")
+    os.makedirs(repdir, exist_ok=True)
     cfg = runner.TIERS[tier]
     n_done = 0
     for oracle, vs in sorted(seen_oracles.items()):
@@ -190,7 +192,7 @@ def main(argv=None):
                 continue
             k = classify(prop, md, m["finding"], known)
             tag = k["id"] if k else "violation"
-            path = os.path.join(VERIF, "replays", f"{prop}-{seed}-{md.get('run_index', 0)}-{oracle.replace('/', '_').replace(':', '_')[:40]}.json")
+            path = os.path.join(repdir, f"{prop}-{seed}-{md.get('run_index', 0)}-{oracle.replace('/', '_').replace(':', '_')[:40]}.json")
             with open(path, "w") as f:
                 json.dump({"format": 1, "property": prop, "oracle": oracle, "finding": m["finding"], "descriptor": md,
                            "pythonhashseed": 0, "library_rev": rev, "library_dirty": dirty, "classified": tag,
@@ -209,7 +211,7 @@ def main(argv=None):
         known_hits[kid] = known_hits.get(kid, 0) + n
         entry = [k for k in known.get("findings", []) if k["id"] == kid][0]
         sample = total["known_samples"].get(kid)
-        path = os.path.join(VERIF, "replays", f"{prop}-known-{kid[:40]}.json")
+        path = os.path.join(repdir, f"{prop}-known-{kid[:40]}.json")
         try:
             m = runner.fresh_call("worker_minimise", (prop, sample["desc"], sample["finding"], 150))
             md = m["desc"] if m["finding"] is not None else sample["desc"]
